@@ -1262,8 +1262,9 @@ hwloc__groups_by_distances(struct hwloc_topology *topology,
             res_obj = hwloc__insert_object_by_cpuset(topology, NULL, group_obj,
                                                      (kind & HWLOC_DISTANCES_KIND_FROM_USER) ? "distances:fromuser:group" : "distances:group");
             if ((topology->state & HWLOC_TOPOLOGY_STATE_IS_LOADED)
-                && res_obj == group_obj && res_obj->first_child) {
-              /* the Group was placed by cpuset, it may contain other NUMA nodes than those of its members
+                && res_obj && res_obj->type == HWLOC_OBJ_GROUP && res_obj->first_child) {
+              /* the Group was placed by cpuset (or its contents replaced those of an existing Group),
+               * it may contain other NUMA nodes than those of its members
                * (e.g. nodes attached deeper below an object it covers), rebuild its nodesets from its children.
                * During discovery the core propagates the nodesets later.
                */
